@@ -50,7 +50,7 @@ fn main() {
     // one crate per fixed interface family, so that a macro that rejects one does not take
     // the others with it
     let fixed_crates: Vec<(&str, Vec<IfaceSpec>)> =
-        vec![("gfix_mini", vec![genr::mini()]), ("gfix_pzoo", vec![genr::pzoo()]), ("gfix_qdev", qdevs), ("gfix_big", vec![genr::big()])];
+        vec![("gfix_mini", vec![genr::mini()]), ("gfix_pzoo", vec![genr::pzoo()]), ("gfix_qdev", qdevs), ("gfix_big", { let mut v = vec![genr::big()]; v.extend(genr::singles()); v })];
     let mut names: Vec<String> = Vec::new();
     for (cname, specs) in &fixed_crates {
         for f in specs {
